@@ -295,7 +295,9 @@ func (cf *CloudflarePublisher) getZoneData(ctx context.Context, zone string, dat
 		for _, r := range result.Result {
 			data[zoneName{zone, r.Name}] = idData{zoneID, r.ID, r.Data}
 		}
-		if len(result.Result) == 0 || result.ResultInfo.Page >= result.ResultInfo.TotalPages || result.ResultInfo.Page*result.ResultInfo.PerPage >= result.ResultInfo.Count {
+		// result_info.count is the number of records on this page, not the
+		// total: only total_pages (or an empty page) ends the listing.
+		if len(result.Result) == 0 || result.ResultInfo.Page >= result.ResultInfo.TotalPages {
 			break
 		}
 	}
